@@ -101,6 +101,14 @@ func writeASCIISTL(c meshCase) (string, [][3][3]float64, error) {
 	s := &styler{seed: uint64(c.Style)}
 	var b strings.Builder
 	name := s.oneOf("", " mesh", " a solid with a long name", " facet normal 1 2 3", " OpenSCAD_Model", " endsolid")
+	switch s.pick(6) {
+	case 0:
+		// exporters write file paths and comments here; the name may be longer than any look-ahead window of the reader,
+		// and with few or no facets the keyword "facet" may not occur in that window at all
+		name = " " + strings.Repeat("/home/user/My Models/part-0001_final (copy)", 1+s.pick(16)) + ".stl"
+	case 1:
+		name = " " + strings.Repeat("x", 70+s.pick(50))
+	}
 	indent := s.oneOf("", "  ", "\t", "      ")
 	sep := s.oneOf(" ", " ", "  ", "\t")
 	trail := s.oneOf("", "", " ", "\t")
@@ -160,6 +168,12 @@ func checkSTLText(c meshCase, o *kit.Obs) error {
 	}
 	if len(text) > 512 {
 		o.Label("text:>512-bytes")
+	}
+	if i := strings.Index(text, "facet"); (i < 0 || i >= 512) && len(text) >= 84 {
+		o.Label("text:no-facet-keyword-in-first-512-bytes")
+	}
+	if strings.Index(text, "\n") >= 512 {
+		o.Label("text:first-line>512-bytes")
 	}
 	got, err := model3d.ReadSTL(newReader([]byte(text), c.Chunk))
 	if err != nil {
